@@ -109,7 +109,11 @@ def align_size(t, structs):
         return ea, n * round_up(ea, es)
     if k == "st":
         lay = struct_layout(structs[t[1]], structs)
-        return lay["align"], lay["size"]
+        # As seen by a container, naga 24 takes a struct's alignment from its member *types*
+        # only (explicit @align attributes are not part of the type); the struct's own size is
+        # still rounded with the attribute-aware alignment.  The shader is translated with
+        # naga's numbers, so they are what the GPU uses; cross-checked against naga each run.
+        return lay["type_align"], lay["size"]
     raise ValueError(t)
 
 
@@ -121,10 +125,12 @@ def array_stride(t, structs):
 def struct_layout(sd, structs, runtime_len=1):
     off = 0
     align = 1
+    type_align = 1
     offs = []
     sizes = []
     for m in sd.members:
         a, s = align_size(m["ty"], structs)
+        type_align = max(type_align, a)
         if m["ty"][0] == "a" and m["ty"][2] is None:
             s = max(runtime_len, 1) * array_stride(m["ty"], structs)
         if m.get("align"):
@@ -136,7 +142,8 @@ def struct_layout(sd, structs, runtime_len=1):
         sizes.append(s)
         off += s
         align = max(align, a)
-    return {"align": align, "size": round_up(align, off), "offsets": offs, "sizes": sizes}
+    return {"align": align, "type_align": type_align, "size": round_up(align, off),
+            "offsets": offs, "sizes": sizes}
 
 
 def has_runtime_array(sd):
